@@ -8,6 +8,7 @@ from __future__ import annotations
 
 import copy
 import importlib
+import inspect
 import os
 import random
 import sys
@@ -71,6 +72,9 @@ def resolve(fq: str):
     raise ImportError(fq)
 
 
+PLAIN_SNAPSHOT = {"MemoryWorkflowStore"}
+
+
 def safe_deepcopy(x, _depth=0):
     """Structural snapshot: containers and dataclass instances are copied, leaves (events, exceptions, user
     objects, classes) are kept by reference so that identity-based equality still works on them."""
@@ -85,6 +89,18 @@ def safe_deepcopy(x, _depth=0):
         return {k: safe_deepcopy(v, _depth + 1) for k, v in x.items()}
     if isinstance(x, set):
         return set(x)
+    import collections
+    if isinstance(x, collections.deque):
+        return collections.deque(safe_deepcopy(e, _depth + 1) for e in x)
+    if type(x).__name__ in PLAIN_SNAPSHOT:
+        # plain (non-dataclass) repository objects whose fields a contract's `old` must see as they were
+        y = copy.copy(x)
+        for k, v in vars(x).items():
+            try:
+                setattr(y, k, safe_deepcopy(v, _depth + 1))
+            except Exception:
+                pass
+        return y
     if dataclasses.is_dataclass(x) and not isinstance(x, type):
         y = copy.copy(x)
         for f in dataclasses.fields(x):
@@ -117,6 +133,10 @@ def check_once(contract_cls, fn, args: dict, clauses=None):
     result = None
     try:
         result = fn(**args)
+        if inspect.iscoroutine(result):
+            # an async function of the repository: run it to completion on a private event loop
+            import asyncio
+            result = asyncio.run(result)
     except Exception as e:  # noqa
         raised = e
     allowed = getattr(contract_cls, "raises", [])
